@@ -22,6 +22,7 @@ type Adversary struct {
 	BadBlocks map[uint64]bool // blocks every correct consumer rejects
 	own       []*interfaces.ConsensusRawMessage
 	pad       bool // next PREPARE / COMMIT / VIEW_CHANGE headers get trailing bytes
+	padSlack  bool // ... or (block references only) non-zero bytes in the alignment slack, same length
 }
 
 func NewAdversary(net *Net) *Adversary {
@@ -32,7 +33,7 @@ func NewAdversary(net *Net) *Adversary {
 		}
 	}
 	for i := 0; i < 2; i++ {
-		a.outsiders = append(a.outsiders, []byte{0xee, byte(i)})
+		a.outsiders = append(a.outsiders, outsiderId(i))
 	}
 	return a
 }
@@ -69,10 +70,52 @@ func (a *Adversary) mkPP(key []byte, inst, h, v uint64, b *FakeBlock) *interface
 func (a *Adversary) padRef(ref *protocol.BlockRefBuilder) (*protocol.BlockRefBuilder, []byte) {
 	raw := ref.Build().Raw()
 	if a.pad {
+		if a.padSlack {
+			// same length: bytes the readers skip (alignment padding) become non-zero
+			if alt := slackBytes(raw); alt != nil {
+				return protocol.BlockRefBuilderFromRaw(alt), alt
+			}
+		}
 		raw = append(append([]byte{}, raw...), 0, 0, 0, 0)
 		return protocol.BlockRefBuilderFromRaw(raw), raw
 	}
 	return ref, raw
+}
+
+// slackBytes: a copy of a block reference in which every byte that no accessor reads is set to a
+// non-zero value (found by probing: a byte is slack if changing it changes no field value); nil if there is none
+func slackBytes(raw []byte) []byte {
+	fields := func(b []byte) (s string, ok bool) {
+		defer func() {
+			if recover() != nil {
+				ok = false
+			}
+		}()
+		r := protocol.BlockRefReader(b)
+		return fmt.Sprintf("%d|%d|%d|%d|%x", r.MessageType(), r.InstanceId(), r.BlockHeight(), r.View(), []byte(r.BlockHash())), true
+	}
+	want, ok := fields(raw)
+	if !ok {
+		return nil
+	}
+	out := append([]byte{}, raw...)
+	changed := false
+	for i := range raw {
+		probe := append([]byte{}, raw...)
+		probe[i] ^= 0x5a
+		if got, ok := fields(probe); ok && got == want {
+			out[i] = raw[i] ^ 0x5a
+			if got2, ok2 := fields(out); ok2 && got2 == want {
+				changed = true
+			} else {
+				out[i] = raw[i]
+			}
+		}
+	}
+	if !changed {
+		return nil
+	}
+	return out
 }
 
 func (a *Adversary) mkP(key []byte, t protocol.MessageType, inst, h, v uint64, hash []byte) *interfaces.ConsensusRawMessage {
@@ -306,7 +349,8 @@ func (a *Adversary) act() {
 		}
 	case 2: // Byzantine PREPARE / COMMIT for whatever hash is on the wire for (h, v); sometimes with a padded signed header
 		a.pad = r.Intn(3) == 0
-		defer func() { a.pad = false }()
+		a.padSlack = r.Intn(2) == 0
+		defer func() { a.pad = false; a.padSlack = false }()
 		for _, s := range a.seen() {
 			if m, ok := s.m.(*interfaces.PreprepareMessage); ok && uint64(m.BlockHeight()) == h && uint64(m.View()) == v {
 				hash := m.Content().SignedHeader().BlockHash()
